@@ -172,3 +172,19 @@ pub mod u_mut_param_mod {
         out[0] = a;
     }
 }
+
+// sibling modules using the SAME mock_api identifier (as the documentation's `mock_api = mock`): each module's mock
+// API lives under `<module>::<mock_api>` only, nothing of that name is added to the parent scope
+#[entrait(pub USiblingA, mock_api = mock)]
+pub mod u_sibling_a {
+    pub fn sa<D>(deps: &D, a: i32) -> i32 {
+        a
+    }
+}
+#[entrait(pub USiblingB, mock_api = mock)]
+pub mod u_sibling_b {
+    pub fn sb<D>(deps: &D, a: i32) -> i32 {
+        a
+    }
+}
+pub struct mock;
